@@ -503,8 +503,22 @@ def main():
         want_mat = 0
         for s in lst:
             want_mat |= smat(s)
-        expect = next(((start + d) % 1440 for d in range(1440)
-                       if (want_mat >> (1439 - (start + d) % 1440)) & 1), None)
+        # what the wall clock reads at each successive tick: minute after minute; or several
+        # ticks within a minute; or a clock that is stepped between two ticks (an hour or two later
+        # in the same minute — daylight saving, a resume from suspend —, set back, half a day on)
+        mode = ('steady', 'ticks', 'stepped', 'stepped')[n_wait % 4]
+        if mode == 'steady':
+            steps = [1] * 1500
+        elif mode == 'ticks':
+            steps = [rng.choice([0, 0, 1]) for _ in range(4500)]
+        else:
+            steps = [rng.choice([1, 1, 1, 0, 60, 60, 120, 61, 59, 720, 1380, 1439, 180])
+                     for _ in range(1500)]
+        readings = [start]
+        for st_ in steps:
+            readings.append((readings[-1] + st_) % 1440)
+        hit = next((i for i, r in enumerate(readings) if (want_mat >> (1439 - r)) & 1), None)
+        expect = None if hit is None else (readings[hit], hit)
         state = {'now': start, 'steps': 0}
         clk = clock_mod.Clock()
 
@@ -512,17 +526,17 @@ def main():
             return (state['now'] // 60, state['now'] % 60)
 
         def fake_wait():
-            state['now'] = (state['now'] + 1) % 1440
-            state['steps'] += 1
-            if state['steps'] > 1500:
+            if state['steps'] >= len(steps):
                 raise RuntimeError('never fires')
+            state['now'] = (state['now'] + steps[state['steps']]) % 1440
+            state['steps'] += 1
             return True
         orig = clock_mod.Clock._hour_minute
         clock_mod.Clock._hour_minute = staticmethod(fake_hm)
         clk.wait = fake_wait
         try:
             clk.wait_until(pat)
-            got = state['now']
+            got = (state['now'], state['steps'])
         except RuntimeError:
             got = None
         finally:
@@ -531,9 +545,10 @@ def main():
         chk.count()
         if got != expect:
             chk.violation('wait-returns-at-wrong-minute',
-                          '`time at {}` from {}:{:02d} returned at {} instead of {}'.format(
-                              ' or '.join(lst), start // 60, start % 60, got, expect),
-                          {'patterns': lst, 'start': start, 'got': got, 'expect': expect})
+                          '`time at {}` from {}:{:02d}, clock {}: returned at (minute of day, tick) {} instead '
+                          'of {}'.format(' or '.join(lst), start // 60, start % 60, mode, got, expect),
+                          {'patterns': lst, 'start': start, 'got': got, 'expect': expect, 'clock': mode,
+                           'readings': readings[:(hit or 0) + 3] if mode != 'steady' else None})
     stats['virtual_waits'] = n_wait
 
     # ---- correspondence: the Lean model on the same requests
